@@ -636,7 +636,7 @@ class RunSpec:
         return "%s n=%d seed=%s ig=%s og=%s %s" % (self.c.name, self.n, self.seed, self.ig, self.og, self.flavor)
 
 
-def traced_run(spec, workdir, timeout=60):
+def traced_run(spec, workdir, timeout=25):
     """Run `lbzip2 -dc -n<n>` on the crafted input with hooks; returns dict."""
     exe = vlib.build_lbzip2(spec.flavor)
     os.makedirs(workdir, exist_ok=True)
@@ -802,14 +802,25 @@ def hunt_f4(check, tries=160):
         def one(i):
             env = hook_env(seed=None if i % 2 == 0 else i, ig=64)
             env["ASAN_OPTIONS"] = "detect_leaks=0"
-            rc, o, e = run_lbzip2(exe, c.data, ["-dc", "-n8"], env=env, timeout=120)
+            rc, o, e = run_lbzip2(exe, c.data, ["-dc", "-n8"], env=env, timeout=30)
             return i, rc, o, e.decode("latin-1")
+        hit = None
+        hung = 0
+        n = tries if flavor == "dbg" else tries // 4
         with ThreadPoolExecutor(max_workers=max(2, vlib.NCPU // 2)) as ex:
-            hit = None
-            n = tries if flavor == "dbg" else tries // 4
-            for i, rc, o, e in ex.map(one, range(n)):
-                if classify_crash(rc, e) and hit is None:
-                    hit = (i, rc, e)
+            for start in range(0, n, 16):
+                for i, rc, o, e in ex.map(one, range(start, min(n, start + 16))):
+                    if rc == 124:
+                        hung += 1
+                    elif classify_crash(rc, e) and hit is None:
+                        hit = (i, rc, e)
+                if hit or hung >= 3:
+                    break
+        if hung >= 3 and not hit:
+            out.append(Violation("deadlock-or-timeout:" + flavor,
+                                 "valid input, `LBZIP2_VERIF_IN_GRANUL=64 lbzip2-%s -dc -n8` does not terminate within 30 s (%d runs)" % (flavor, hung),
+                                 {"input_hex": c.data.hex(), "n": 8, "in_granul": 64, "flavor": flavor, "kind": "run"}))
+            break
         if hit:
             i, rc, e = hit
             out.append(Violation(
@@ -981,3 +992,135 @@ def direct_x(check, leaks=False):
 
 def search_x(check):
     return hunt_f4(check, tries=120 if check.tier == "quick" else 400) + hunt_f3(check, runs=30 if check.tier == "quick" else 100)
+
+
+# ---------------------------------------------------------------------------
+# blocks made of 20-bit prefix codes (groups of exactly 1000 bits): every alignment of a
+# group against an input block boundary occurs for small in_granul (C09: the retriever
+# must suspend/resume identically wherever the boundary falls, fast and slow path)
+# ---------------------------------------------------------------------------
+def gen_long_codes(rng, n_hot=140, n_fill=3):
+    used = list(range(0x61, 0x61 + 19))
+    n = len(used) + 2
+    M1, M2, EOB = 2, 3, n - 1
+    len0 = [19, 18, 20, 20] + [21 - k for k in range(4, n)]
+    len1 = [3, 4, 1, 2] + [k + 1 for k in range(4, n - 2)] + [20, 20]
+
+    def canon2(lengths):
+        order = sorted(range(len(lengths)), key=lambda s: (lengths[s], s))
+        codes = [None] * len(lengths)
+        code = 0
+        prev = lengths[order[0]]
+        for s in order:
+            code <<= lengths[s] - prev
+            prev = lengths[s]
+            codes[s] = code
+            code += 1
+        return codes
+    code0, code1 = canon2(len0), canon2(len1)
+    syms = []
+    sel = []
+    for _ in range(n_fill):
+        syms += [rng.choice((M1, M2)) for _ in range(50)]
+        sel.append(1)
+    for _ in range(n_hot):
+        syms += [rng.choice((M1, M2)) for _ in range(50)]
+        sel.append(0)
+    syms += [rng.choice((M1, M2)) for _ in range(7)] + [EOB]
+    sel.append(0)
+
+    def simulate(bwt_idx):
+        mtf = list(used)
+        tt = []
+        for s in syms:
+            if s == EOB:
+                break
+            c = mtf.pop(s - 1)
+            mtf.insert(0, c)
+            tt.append(c)
+        N = len(tt)
+        cnt = [0] * 256
+        for c in tt:
+            cnt[c] += 1
+        cum = 0
+        ftab = []
+        for c in range(256):
+            ftab.append(cum)
+            cum += cnt[c]
+        T = list(tt)
+        for i in range(N):
+            uc = tt[i]
+            T[ftab[uc]] += i << 8
+            ftab[uc] += 1
+        p = T[bwt_idx]
+        pre = []
+        for _ in range(N):
+            p = T[p >> 8]
+            pre.append(p & 0xff)
+        out = bytearray()
+        i = 0
+        while i < N:
+            c = pre[i]
+            out.append(c)
+            i += 1
+            k = 1
+            while k < 4 and i < N and pre[i] == c:
+                out.append(c)
+                i += 1
+                k += 1
+            if k == 4:
+                if i >= N:
+                    return None
+                out += bytes([c]) * pre[i]
+                i += 1
+        return bytes(out)
+    plain = None
+    for bwt_idx in range(1, 200):
+        plain = simulate(bwt_idx)
+        if plain is not None:
+            break
+    if plain is None:
+        return gen_crafted(rng, "plain")
+    crc = crc32_bz(plain) ^ 0xFFFFFFFF
+    w = BW()
+    w.put(32, 0x425A6839)
+    w.put(24, 0x314159)
+    w.put(24, 0x265359)
+    w.put(32, crc)
+    w.put(1, 0)
+    w.put(24, bwt_idx)
+    big = 0
+    small = {}
+    for b in used:
+        big |= 0x8000 >> (b >> 4)
+        small[b >> 4] = small.get(b >> 4, 0) | (0x8000 >> (b & 15))
+    w.put(16, big)
+    for r in sorted(small):
+        w.put(16, small[r])
+    w.put(3, 2)
+    w.put(15, len(sel))
+    m = [0, 1]
+    for s in sel:
+        i = m.index(s)
+        w.put(i + 1, (1 << (i + 1)) - 2)
+        m.insert(0, m.pop(i))
+    for L in (len0, len1):
+        cur = L[0]
+        w.put(5, cur)
+        for l in L:
+            while cur < l:
+                w.put(2, 2)
+                cur += 1
+            while cur > l:
+                w.put(2, 3)
+                cur -= 1
+            w.put(1, 0)
+    for g in range(len(sel)):
+        codes, L = (code0, len0) if sel[g] == 0 else (code1, len1)
+        for s in syms[50 * g: 50 * g + 50]:
+            w.put(L[s], codes[s])
+    w.put(24, 0x177245)
+    w.put(24, 0x385090)
+    w.put(32, crc)
+    data = w.bytes()
+    return Crafted("long20-%s" % hashlib.sha256(data).hexdigest()[:10], data, plain, True, "long20")
